@@ -86,13 +86,15 @@ Section WithHash.
 
   (** PRNG.GetRand for [MakePRNG(appHash, t, consumer, seed, oracle)]: numerator of the
       result over 10^20; [None] = division by zero panic *)
-  Definition get_rand (t a c : Z) (seed : option Z) : option Z :=
-    if t =? 0 then None else
+  Definition rand_val (t a c : Z) (seed : option Z) : Z :=
     let seedBH := ediv (sha (HApp a)) t in
     let seedTI := ediv (sha (HAddr c)) t in
     let sum := t + seedBH + seedTI in
     let sum := match seed with Some sd => sum + ediv (sha (HSeed sd)) t | None => sum end in
-    Some (sha (HSum (Z.abs sum)) mod precision).
+    sha (HSum (Z.abs sum)) mod precision.
+
+  Definition get_rand (t a c : Z) (seed : option Z) : option Z :=
+    if t =? 0 then None else Some (rand_val t a c seed).
 
   (** ** messages *)
 
